@@ -414,7 +414,14 @@ class UserActions(object):
         filled_row_ids[i] = row_id = next_row_id
       elif row_id > 1000000:
         raise ValueError("Row ID too high")
+      elif row_id == 0:
+        # Row 0 is the shared "empty record"; it can never be a real row.
+        raise ValueError("Row ID 0 is not allowed")
       next_row_id = max(next_row_id, row_id) + 1
+
+    # Each requested row must become exactly one new row.
+    if len(set(filled_row_ids)) != len(filled_row_ids):
+      raise ValueError("Duplicate row ID in %s" % (filled_row_ids,))
 
     # Whenever we add new rows, remember the mapping from any negative row_ids to their final
     # values. This allows the negative_row_ids to be used as Reference values in subsequent
